@@ -27,9 +27,11 @@ SizesFor(defs, opt, n, attr, hasattr) ==
      /\ (opt = "attr" => hasattr /\ Len(attr) = Len(defs) /\ \A i \in DOMAIN defs : attr[i] = s[i])
      /\ (opt = "same" => \A i, j \in DOMAIN defs : VarLike(defs[i]) /\ VarLike(defs[j]) => s[i] = s[j])}
 
-ElemOK(c, tok, bind) == CASE c[1] = "any" -> TRUE [] c[1] = "eq" -> tok = c[2] [] c[1] = "var" -> bind[c[2]] = tok
-PiecesOK(defs, s, elems, bind) ==
-  \A i \in DOMAIN defs : \A k \in 1 .. s[i] : ElemOK(defs[i].c, elems[Offset(s, i) + k], bind)
+ElemOK(c, tok, bind) == CASE c[1] = "any" -> TRUE [] c[1] = "eq" -> tok = c[2] [] c[1] = "var" -> bind[c[2]] = tok [] c[1] = "rvar" -> TRUE
+PiecesOK(defs, s, elems, bind, rbind) ==
+  \A i \in DOMAIN defs :
+     /\ \A k \in 1 .. s[i] : ElemOK(defs[i].c, elems[Offset(s, i) + k], bind)
+     /\ (defs[i].c[1] = "rvar" => SubSeq(elems, Offset(s, i) + 1, Offset(s, i) + s[i]) = rbind)
 
 VarNames == {"T", "U"}
 Accepts(def, inst, Toks) ==
@@ -37,7 +39,8 @@ Accepts(def, inst, Toks) ==
   \E sr \in SizesFor(def.res, def.ropt, Len(inst.res), inst.rsz, inst.hasrsz = 1) :
   \E sg \in SizesFor(def.regs, def.gopt, inst.nregs, inst.gsz, inst.hasgsz = 1) :
   \E bind \in [VarNames -> Toks] :
-     PiecesOK(def.ops, so, inst.ops, bind) /\ PiecesOK(def.res, sr, inst.res, bind)
+  \E rbind \in UNION {[1 .. k -> Toks] : k \in 0 .. 4} :        \* one range variable "R"
+     PiecesOK(def.ops, so, inst.ops, bind, rbind) /\ PiecesOK(def.res, sr, inst.res, bind, rbind)
 
 \* the split is unique whenever it exists (at most one optional/variadic segment without option; equal sizes; given sizes)
 TheSizes(defs, opt, n, attr, hasattr) == CHOOSE s \in SizesFor(defs, opt, n, attr, hasattr) : TRUE
